@@ -57,7 +57,7 @@ def sev(start, dur, vel, tick, total, n, pre=None, k=None):
 class C20(Property):
     id = "C20"
     lean_module = "RosuModel.Props.C20Full"   # imports Props/C20Exact.lean (→ Props/C20.lean) and Props/C20Ieee.lean; all in namespace Rosu.C20
-    theorem_modules = ['RosuModel.Props.C20Exact', 'RosuModel.Props.C20Ieee', 'RosuModel.Props.C20IeeeTicks', 'RosuModel.Props.C20IeeeErr', 'RosuModel.Props.C20IeeeErr2']   # files whose top-level theorems are all audited
+    theorem_modules = ['RosuModel.Props.C20Exact', 'RosuModel.Props.C20Ieee', 'RosuModel.Props.C20IeeeTicks', 'RosuModel.Props.C20IeeeErr', 'RosuModel.Props.C20IeeeErr2', 'RosuModel.Props.C20IeeeForms', 'RosuModel.Props.C20IeeeFormsOrder']   # files whose top-level theorems are all audited
     namespace = "Rosu.C20"
     design_ref = "5.20"
     level_text = (
@@ -87,6 +87,8 @@ class C20(Property):
         "eager Rust reference written from the property text judges the implementation.")
     technique = "Lean 4 proof (induction over spans / stack discipline) + bit-exact differential correspondence on the public iterator"
     required_theorems = [
+        "head_exact_float", "repeat_time_err_float", "tail_time_err_float", "last_tick_time_err_float", "repeat_progress_exact_float", "span_start_mono_float",
+        "last_tick_le_tail_float", "strict_order_fails_float", "last_tick_gt_tail_float",
         "tick_progress_err_float", "tick_progress_multiple_err_float", "tick_time_err_float", "tick_time_total_err_float", "span_start_err_float",
         "ticks_near_multiples_float", "tick_rel_err_float", "tick_rel_err_crude_float", "tick_abs_err_after_new_float", "first_tick_exact_float", "exG_third_tick_off",
         "stream_shape", "stream_shape_spec", "stream_fuel_exhausted", "event_count", "buffer_irrelevant", "runSeq_buffer_irrelevant",
@@ -106,6 +108,14 @@ class C20(Property):
         "lt_of_not_le_float_false", "orderedFieldLaws_float_false",
     ]
     partial_theorems = {
+        "head_exact_float / repeat_time_err_float / tail_time_err_float / last_tick_time_err_float / the order facts (closed forms on IEEE DOUBLES)":
+            "sixth session, Props/C20IeeeForms.lean, Props/C20IeeeFormsOrder.lean over the error-bound layer. Head: time = start and progress 0 exactly (no arithmetic). Repeats: |time - (start + (s+1) D)| <= "
+            "5 * 2^-53 (|start| + (s+1) D) + 2^-1073; tail: 3 * 2^-53 (|start| + n D) + 2^-1074; last tick: IEEE max is exact (toRat_max_float), the time is one of its two operands, each within an explicit bound of "
+            "start + n D / 2 resp. start + n D - 36 (last_tick_time_err_simple_float: 7 * 2^-53 (|start| + n D + 36) + 2^-1072); progress of repeats and tail exactly 0 or 1, the last tick's progress within a bound. The only "
+            "finiteness hypothesis is that the result is finite. Order facts that SURVIVE rounding (D >= 0): span starts are monotone, head <= span start <= repeat, head <= tail, head <= last tick, last-tick half <= tail; "
+            "last tick <= tail under |start| + n D <= 2^54 (last_tick_le_tail_float); repeat <= tail under a gap hypothesis (repeat_le_tail_partial; the unconditional repeat_le_tail_statement is NOT proved). FALSE on doubles, "
+            "kernel-evaluated: the strict order of stream_ordering_exact (strict_order_fails_float: start 2^53, D = 0.25, n = 2 - head, repeat, last tick and tail all at 2^53), last tick <= tail without the magnitude bound "
+            "(last_tick_gt_tail_float: start about 4.4e18, the -36 is absorbed), and the identity behind last_tick_formula even as <= (final_span_end_gt_tail_float: one ulp)",
         "ticks_at_multiples / ticks_at_multiples_exact / stream_ticks_exact":
             "exact arithmetic only (ExactNum: instances Rat, reals), about spanTickDists / the events collect returns; in IEEE f64 the k-th distance is the "
             "k-fold ROUNDED sum ((t+t)+t)+... and is NOT the exact multiple (exG_third_tick_off: for t = 0.1 the third distance is 3t + 2^-55, kernel-evaluated). NOW WITH A PROVED IEEE ERROR BOUND "
